@@ -4,7 +4,7 @@ from __future__ import annotations
 import ast
 from typing import Any, Dict, List, Optional, Tuple
 
-from ..kit import caller_ok, Case, Ctx, calls, calls_target, kw, loops, normal_paths, poly_of, product_worlds, rule, short, stores, table_check_cases
+from ..kit import path_text, caller_ok, Case, Ctx, calls, calls_target, kw, loops, normal_paths, poly_of, product_worlds, rule, short, stores, table_check_cases
 from ..paths import Event, Path
 from ..terms import NONE, Term, canon_pred, key, strip_ver, substitute, subterms
 from .runner import ADD, CANCEL, EXEC, HO, IT, RUN, handling_blocks
@@ -123,9 +123,9 @@ def _dispatch_loops(ctx: Ctx, tf, q: str, p: Path, t: str) -> None:
                     a = dict(strip_ver(c)[3])
                     okf = key(a.get("check_object", NONE)) == tf.params[1] and a.get("class_requirement") == ("attr", el, "specific_class") and a.get("instance_requirement") == ("attr", el, "specific_instance")
                     okf = okf and (len(hs) == 1) == pol
-                ctx.check(okf, tf, l.node, f"{q}: handler runs iff the hook's class/instance filter accepts the market", "if _check_event_class_and_instance(market, hook.specific_class, hook.specific_instance): handler", bp.describe()[:160])
+                ctx.check(okf, tf, l.node, f"{q}: handler runs iff the hook's class/instance filter accepts the market", "if _check_event_class_and_instance(market, hook.specific_class, hook.specific_instance): handler", bp.describe()[:160], guard="text", guard_text=path_text(p))
             else:
-                ctx.check(len(hs) == 1 and not bp.conds and bp.exit[0] == "fall", tf, l.node, f"{q}: one unconditional handler call per selected hook", "exactly one call, no filter", f"{len(hs)} call(s), {len(bp.conds)} condition(s)")
+                ctx.check(len(hs) == 1 and not bp.conds and bp.exit[0] == "fall", tf, l.node, f"{q}: one unconditional handler call per selected hook", "exactly one call, no filter", f"{len(hs)} call(s), {len(bp.conds)} condition(s)", guard="text", guard_text=path_text(p))
 
 
 def _selection_by_pieces(ctx: Ctx, tf, q: str, p: Path, slot: Term, tsrc: str, none_in, time_in) -> Optional[bool]:
@@ -303,7 +303,7 @@ def check_triggers(ctx: Ctx, only) -> None:
             tgt_ok = len(lps) == 1 and all(e.recv == lps[0].iter for e in ext)
             if not want and not lps and not ext and not [e for e in calls(p) if e.name.startswith("hooked_")]:
                 tgt_ok = True  # neither bucket exists: the (empty) selection is walked zero times
-            ctx.check(got == want and tgt_ok, tf, tf.node, f"{q}: targets = hooks[None] ++ hooks[time] (buckets present: all-times={none_in[0]}, timed={tpol})", " ++ ".join(want) or "[]", " ++ ".join(got) or "[]")
+            ctx.check(got == want and tgt_ok, tf, tf.node, f"{q}: targets = hooks[None] ++ hooks[time] (buckets present: all-times={none_in[0]}, timed={tpol})", " ++ ".join(want) or "[]", " ++ ".join(got) or "[]", guard="text", guard_text=path_text(p))
             _dispatch_loops(ctx, tf, q, p, t)
         ctx.require(seen_paths >= 1, f"{q}: no normal path")
     # the filter predicate itself
@@ -372,6 +372,9 @@ def check_call_sites(ctx: Ctx, aspects) -> None:
         elif "before_order" in aspects and b.kind == "order":
             allb = [e for e in trig if e.name == bname]
             ok = len(allb) == 1 and len(bef) == 1 and evs.index(bef[0]) < i
+            if not allb and any(b2.phase == b.phase and b2.kind == b.kind and any(e.kind == "call" and e.name == bname for e in b2.path.events) for b2 in blocks):
+                ctx.unrec(f, b.accept.node, f"{b.phase} order: the before-order hook runs once, before acceptance", f"{bname} is called under a condition ({b.path.describe()[:120]}): whether a hook that is due is ever skipped by it is not decided")
+                continue
             ctx.check(ok, f, b.accept.node, f"{b.phase} order: the before-order hook runs once, before acceptance", f"{bname}(order=<it>) < _add_order", f"{len(allb)} before-order trigger(s)")
         if "execution" not in aspects:
             continue
@@ -379,6 +382,9 @@ def check_call_sites(ctx: Ctx, aspects) -> None:
         ex = [e for e in evs if e.kind == "call" and calls_target(e, EXEC)]
         for x in ex:
             walked = [l for l in loops(b.path) if l.iter == x.term or (l.iter is not None and l.iter[0] == "call" and key(l.iter[1]) == "zip" and l.iter[2] and l.iter[2][0] == x.term)]
+            telling = [l for l in walked if any(e.name == "executed_order" or e.name.startswith("_trigger_event_") for bp in l.paths for e in calls(bp))]
+            if len(walked) > 1 and len(telling) == 1:
+                walked = telling  # the other passes over the fills settle them (a folded-in routine of the simulator); the pass that tells is this one
             ctx.check(len(walked) == 1, f, x.node, f"{b.phase} {b.kind}: the fills of a round are walked once, right after the round (hooks see a fill before the next order is accepted)", "for log in <result of this _execution()>: ...", f"{len(walked)} loop(s) over the round's result within the handling of that order")
             for l in walked:
                 el = ("sym", f"{l.target[0]}∈{l.loopid}")
